@@ -575,7 +575,7 @@ def m_range_into_iter(ex, callee, args):
     return args[0]
 
 
-@model(r'^core::slice::<impl \[.*\]>::join::<|^core::slice::<impl \[.*\]>::concat')
+@model(r'^(core::|alloc::)?slice::<impl \[.*\]>::join::<|^(core::|alloc::)?slice::<impl \[.*\]>::concat')
 def m_join(ex, callee, args):
     v = vec_of(args[0])
     sep = as_str(args[1]) if len(args) > 1 else b''
